@@ -32,6 +32,9 @@ type Case struct {
 	// ProbeDeadlineMs > 0: the RPC probes carry a context deadline, shorter than the back-off base
 	// delay (callers with short per-call timeouts must get the node back as well); 0: no deadline
 	ProbeDeadlineMs int `json:"probe_deadline_ms,omitempty"`
+	// OneWayFirst: the first call that reaches a restarted node is one-way (Unicast | Multicast); the
+	// two-way probes follow once its server has received that message
+	OneWayFirst string `json:"one_way_first,omitempty"`
 }
 
 var probeKinds = []string{"QC", "QCPerNode", "Async", "Corr", "CorrStream", "Multicast", "MulticastPerNode", "Unicast"}
@@ -87,6 +90,7 @@ func gen(t *rapid.T) Case {
 			}
 		}
 		c.ProbeKinds = rapid.SliceOfNDistinct(rapid.SampledFrom(probeKinds), 1, 2, rapid.ID[string]).Draw(t, "probeKinds")
+		c.OneWayFirst = rapid.SampledFrom([]string{"", "", "Unicast", "Multicast"}).Draw(t, "oneWayFirst")
 		return c
 	}
 	ns := rapid.IntRange(1, 6).Draw(t, "nsteps")
@@ -211,6 +215,31 @@ func once(c Case) outcome {
 	}
 	// (a) every node (all are up now) is contacted again; (b) the first handled probe gets its reply promptly
 	bo := time.Duration(c.Mgr.BackoffMs) * time.Millisecond
+	if c.OneWayFirst != "" {
+		// the first call a restarted node receives is one-way: nobody waits for a reply to it, but the
+		// replies to the two-way calls that follow must be read all the same
+		o.classes = append(o.classes, "one-way-first="+c.OneWayFirst)
+		for s := 0; s < c.N; s++ {
+			if !restarted[s] {
+				continue
+			}
+			deadline := time.Now().Add(scen.B + 6*bo)
+			for time.Now().Before(deadline) {
+				tok := scen.NewTokens(1)
+				call := client.NewCall(900+idx, tok, uint64(900+idx), scen.CallSpec{Kind: c.OneWayFirst, Node: s, Ctx: "cancel"})
+				idx++
+				go call.Issue()
+				scen.Await(call.DoneCh(), 2*time.Second)
+				if cl.Log.WaitFor(100*time.Millisecond, func(evs []scen.Event) bool {
+					return scen.Count(evs, func(e scen.Event) bool { return e.Kind == "enter" && e.Token == tok && e.Server == s }) > 0
+				}) {
+					break
+				}
+				call.Cancel()
+				time.Sleep(20 * time.Millisecond)
+			}
+		}
+	}
 	for s := 0; s < c.N; s++ {
 		deadline := time.Now().Add(scen.B + 6*bo)
 		reached := false
